@@ -229,13 +229,13 @@ func init() {
 	register(&Property{ID: "C13", Level: "exploration", QuickS: 100, ThoroughS: 400,
 		Assume: []string{"composition of the real galaxy-ipam Bind (world model of the API server), the real daemon request path with a recording plugin, and the plugins' own decoder cni/ipam.Allocate",
 			"masks /8 /16 /24 /30 /32, gateway first/last host, VLAN ids {0,1,2,4094,4095,65535}; k in {1,2,3} IPs from pools with different settings"},
-		Rule: "every single-pool setting (60) and ordered pairs/triples over a 6-setting menu: Bind -> binding annotation -> pod annotation -> daemon ADD -> CNI_ARGS recorded by the plugin -> Allocate(); the decoded (address, prefix length, gateway, VLAN) sequence must equal what was configured for the allocated, persisted IPs, in request order; distinct/non-trivial = distinct pool settings",
+		Rule: "every single-pool setting (60) and ordered pairs/triples over a 6-setting menu: Bind -> binding annotation -> pod annotation -> daemon ADD -> CNI_ARGS recorded by the plugin -> Allocate(); the decoded (address, prefix length, gateway, VLAN) sequence must equal what was configured for the allocated, persisted IPs, in request order; plus 66 two-configuration cases (a pod bound, the pool's settings replaced or a pool added in front of it, a second pod bound): the second pod's plugin sees the settings in force; distinct/non-trivial = distinct pool settings",
 		Jobs: func(tier string) []Job {
 			var jobs []Job
 			for s := 0; s < 8; s++ {
 				jobs = append(jobs, c13Job(s, 8, tier))
 			}
-			return jobs
+			return append(jobs, c13ReloadJob(tier))
 		}})
 	replayers["C13"] = replayDescOnly
 }
